@@ -62,7 +62,7 @@ CHAR_NAMES = {
     "\u00e9": "eacute",
 }
 STYLE_NAMES = {"": "bare", "'": "sq", '"': "dq", "r'": "r-sq", 'r"': "r-dq", "'''": "tsq", '"""': "tdq",
-               "p'": "p-sq", "pr'": "pr-sq", 'p"': "p-dq", 'pr"': "pr-dq"}
+               "p'": "p-sq", "pr'": "pr-sq", 'p"': "p-dq", 'pr"': "pr-dq", "r'''": "r-tsq", "p'''": "p-tsq", "pr'''": "pr-tsq"}
 
 
 def shape(name):
@@ -76,7 +76,9 @@ def all_names(maxlen):
     for n in range(1, maxlen + 1):
         for tup in itertools.product(ALPHA1, repeat=n):
             out.append("".join(tup))
-    return out + [k for k in KEYWORD_NAMES]
+    # keyword names, and plain names of the same lengths as controls (is it the keyword or the length?)
+    controls = sorted({"a" * len(k) for k in KEYWORD_NAMES} - set(out))
+    return out + controls + [k for k in KEYWORD_NAMES]
 
 
 def _closer(style):
@@ -110,6 +112,10 @@ def _alarm(signum, frame):
 
 class _Worker:
     def __init__(self):
+        import warnings
+
+        warnings.simplefilter("ignore")  # SyntaxWarning from literal_eval of typed text like '\\@'
+        self._admit_cache = {}
         # tables.ensure_tables() was called by the parent (run/replay): forked workers inherit the pinned tables
         root = common.scratch_dir("c18")
         self.home = os.path.join(root, "home")
@@ -152,7 +158,15 @@ class _Worker:
     # -- the situation the property talks about -------------------------------------------------
     def admit(self, line, cursor, style, p, closer):
         """The real analyser + the completer's own unquoting say: the user is typing the second word
-        of `rec ...`, opened with `style`, and what was typed so far means exactly `p`."""
+        of `rec ...`, opened with `style`, and what was typed so far means exactly `p`.
+        (A pure function of its arguments - independent of the directory - hence cached.)"""
+        k = (line, cursor, style, p, closer)
+        r = self._admit_cache.get(k)
+        if r is None:
+            r = self._admit_cache[k] = self._admit(line, cursor, style, p, closer)
+        return r
+
+    def _admit(self, line, cursor, style, p, closer):
         from xonsh.completers.path import _path_from_partial_string
         from xonsh.parsers.completion_context import CommandArg
 
@@ -365,6 +379,7 @@ def check_name(name):
 
 def _reductions(name):
     if name in KEYWORD_NAMES:
+        yield "a" * len(name)  # is it the keyword, or would any plain name of that length fail too?
         return
     for i in range(len(name)):
         if len(name) > 1:
@@ -374,42 +389,54 @@ def _reductions(name):
             yield name[:i] + "a" + name[i + 1 :]
 
 
-def classify_roundtrip(fails):
-    """Attribute every failing case to the MINIMAL failing name with the same emitted quote form and
-    failure signature (all smaller names were enumerated too, so minimisation is a table lookup)."""
-    table = collections.defaultdict(set)  # (name, emitted, sig) -> kinds
-    for f in fails:
-        table[(f["name"], f["emitted"], f["sig"])].add(f["kind"])
+def sig_class(sig):
+    if sig == "value":
+        return "wrong-value"
+    if sig.startswith("argc-") or sig.startswith("rec-run-"):
+        return "split"
+    return "not-run"  # the completed line raises / never calls the command
 
+
+def classify_roundtrip(fails):
+    """Attribute every failing case to the MINIMAL failing name with the same typed quote style and
+    the same failure class (every smaller name was enumerated too, so minimisation is a lookup in the
+    table of failures: delete one character / replace one character by a plain letter while a failure
+    of the same class with the same emitted quoting remains).  A failure seen with a closing quote
+    after the cursor is labelled so only if the same name passes without one.
+    key = roundtrip:<typed quote style>[+closing-quote-after-cursor]:<shape of minimal name>:<class>:<kinds>"""
+    tables_ = {False: collections.defaultdict(set), True: collections.defaultdict(set)}
+    emitted = {}
+    for f in fails:
+        k = (f["name"], f["style"], sig_class(f["sig"]))
+        tables_[bool(f["closed"])][k].add(f["kind"])
+        emitted.setdefault((bool(f["closed"]),) + k, f["emitted"])
     memo = {}
 
-    def minimal(name, em, sig):
-        k = (name, em, sig)
+    def minimal(name, ident, closed):
+        k = (name, ident, closed)
         if k not in memo:
             memo[k] = name
             for cand in _reductions(name):
-                if (cand, em, sig) in table:
-                    memo[k] = minimal(cand, em, sig)
+                if (cand,) + ident in tables_[closed]:
+                    memo[k] = minimal(cand, ident, closed)
                     break
         return memo[k]
 
     out = []
     for f in fails:
-        m = minimal(f["name"], f["emitted"], f["sig"])
-        kinds = "+".join(sorted(table[(m, f["emitted"], f["sig"])], key=("file", "dir").index))
-        key = "roundtrip:%s:%s:%s:%s" % (STYLE_NAMES.get(f["emitted"], f["emitted"]), shape(m), sig_short(f["sig"]), kinds)
-        out.append((key, m, f))
+        ident = (f["style"], sig_class(f["sig"]))
+        closed = bool(f["closed"]) and (f["name"],) + ident not in tables_[False]
+        m = minimal(f["name"], ident, closed)
+        kinds = "+".join(sorted(tables_[closed][(m,) + ident], key=("file", "dir").index))
+        style = STYLE_NAMES.get(f["style"], f["style"]) + ("+closing-quote-after-cursor" if closed else "")
+        out.append(("roundtrip:%s:%s:%s:%s" % (style, shape(m), ident[1], kinds), m, f))
     return out
-
-
-def sig_short(sig):
-    return sig
 
 
 # ------------------------------------------------------------------------------- part 2
 
 ALPHA2 = ["a", " ", "'", '"', "\\", "$", "(", ")", "[", "]", "{", "}", "|", "&", ";", "\n", "@", "!", ">", "#"]
-ALPHA2_REDUCED = ["a", " ", "'", "\\", "$", "(", ")", "[", "|", "&", "\n", "@"]
+ALPHA2_REDUCED = ["a", " ", "'", "\\", "\n", "$", "(", ")"]
 _P2 = None
 _P2_STEM = 2  # work items are (length, alphabet id, first _P2_STEM symbols)
 _ALPHAS = {"full": ALPHA2, "reduced": ALPHA2_REDUCED}
@@ -468,10 +495,12 @@ def analyse(text, cursor):
 def _p2_class(text, cursor, bad):
     """Known, precisely delimited classes; anything else gets its own (minimised) key later."""
     clause = bad[0]
-    if clause == "raises" and bad[1] == "AttributeError@handle_error_linecont":
-        # the very first token of the text is a line continuation (only blanks before it)
-        if re.match(r"^[ ]*\\\n", text):
-            return "first-token-is-line-continuation"
+    if clause == "raises" and bad[1] == "AttributeError@handle_error_linecont" and "'NoneType' object has no attribute 'end'" in bad[2]:
+        # lexer.handle_error_linecont dereferences state["last"] while no token has been recorded yet:
+        # a backslash-newline preceded only by things the lexer does not record (nothing, newlines,
+        # comments, `&&`, `||`)
+        if LC in text:
+            return "no-token-before-line-continuation"
     if clause == "command-prefix":
         if text[cursor - 1 : cursor + 1] == LC and analyse(text, cursor + 1) is None and analyse(text, cursor - 1) is None:
             return "cursor-inside-line-continuation"
